@@ -2,11 +2,11 @@ use crate::engine::core::memory::passive_buffer_set::PassiveBufferSet;
 use crate::engine::core::segment::range_allocator::RangeAllocator;
 use crate::engine::core::{
     Event, EventId, EventIdGenerator, FlushManager, InflightSegments, MemTable, SegmentIdLoader,
-    SegmentLifecycleTracker, WalHandle, WalRecovery,
+    SegmentIndex, SegmentLifecycleTracker, WalHandle, WalRecovery,
 };
 use crate::engine::shard::flush_progress::FlushProgress;
 use crate::shared::config::CONFIG;
-use std::collections::BTreeMap;
+use std::collections::{BTreeMap, HashSet};
 use std::path::PathBuf;
 use std::sync::{Arc, RwLock};
 use tokio::sync::Mutex;
@@ -46,6 +46,31 @@ pub struct ShardContext {
 }
 
 impl ShardContext {
+    fn published_segments(id: usize, base_dir: &PathBuf, on_disk: Vec<String>) -> Vec<String> {
+        if !base_dir.join("segments.idx").exists() {
+            return on_disk;
+        }
+        match futures::executor::block_on(SegmentIndex::load(base_dir)) {
+            Ok(index) => {
+                let published: HashSet<String> = index.all_labels().into_iter().collect();
+                on_disk
+                    .into_iter()
+                    .filter(|label| {
+                        let keep = published.contains(label);
+                        if !keep {
+                            warn!(target: "shard::context", shard_id = id, segment = %label, "Segment directory is not in segments.idx, not serving it");
+                        }
+                        keep
+                    })
+                    .collect()
+            }
+            Err(err) => {
+                warn!(target: "shard::context", shard_id = id, "Failed to load segment index, serving every segment directory: {:?}", err);
+                on_disk
+            }
+        }
+    }
+
     pub fn new(id: usize, base_dir: PathBuf, wal_dir: PathBuf) -> Self {
         // Step 1: Initialize WAL
         info!(target: "shard::context", shard_id = id, "Creating WAL handle");
@@ -58,10 +83,17 @@ impl ShardContext {
 
         // Step 2: Load existing segment IDs
         let segment_id_loader = SegmentIdLoader::new(base_dir.clone());
-        let segment_ids = Arc::new(RwLock::new(segment_id_loader.load()));
-        let segment_id = SegmentIdLoader::next_id(&segment_ids);
-        let existing: Vec<String> = segment_ids.read().unwrap().clone();
-        let allocator = RangeAllocator::from_existing_ids(existing.iter().map(|s| s.as_str()));
+        let on_disk = segment_id_loader.load();
+        // Ids are allocated above every directory that exists, published or not.
+        let segment_id = SegmentIdLoader::next_id(&Arc::new(RwLock::new(on_disk.clone())));
+        let allocator = RangeAllocator::from_existing_ids(on_disk.iter().map(|s| s.as_str()));
+        // Only directories named by segments.idx are served. The index entry is written after a
+        // segment's files are complete and before its WAL entries are dropped, and a compaction
+        // retires its inputs and adds its output in one index replacement; a directory the index
+        // does not name is an interrupted flush (possibly with incomplete files, its events are
+        // still in the WAL), an unpublished compaction output, or a retired input that was not
+        // reclaimed yet. Without an index file nothing was ever retired: keep the listing.
+        let segment_ids = Arc::new(RwLock::new(Self::published_segments(id, &base_dir, on_disk)));
         let mut allocator_preview = allocator.clone();
         let next_l0_id = allocator_preview.next_for_level(0);
 
